@@ -115,6 +115,12 @@ def make_case(rng):
         fam = rng.choice(gen.FAMILIES)
         wd = rng.random() < 0.3
         attrs[15 if wd else 14] = gen.mp_value(rng, fam, withdraw=wd, nmax=6)
+        if fam == 'evpn' and rng.random() < 0.5:
+            # IP prefix routes (type 5) among the others: decode side only
+            v_ = attrs[15 if wd else 14]
+            key_ = 'withdraw' if wd else 'nlri'
+            v_[key_] = v_[key_][:3] + [gen.evpn_route5(rng) for _ in range(rng.choice([1, 2]))]
+            rng.shuffle(v_[key_])
         variants['mp'] = fam
         if fam in ('ipv4_lu', 'ipv6_lu') and wd:
             del attrs[15]
